@@ -47,7 +47,8 @@ theorem down_neg (a : Amount) (e : ℕ) : down exactOps (neg a) e = neg (down ex
 
 /-! ### lines -/
 
-def PlainLine (l : Line) : Prop := l.breakdown = [] ∧ l.sum = none ∧ l.total = none
+/-- an input line: nothing calculated is stored on it yet (any breakdown, item, adjustments) -/
+def PlainLine (l : Line) : Prop := l.sum = none ∧ l.total = none
 
 theorem calcLines_invert (cur : String) (c : ℕ) (rates : List XRate) (r : Rule) (ls : List Line)
     (h : ∀ l ∈ ls, PlainLine l) :
@@ -59,7 +60,7 @@ theorem calcLines_invert (cur : String) (c : ℕ) (rates : List XRate) (r : Rule
     have hl := h l (by simp)
     have ih' := ih (fun x hx => h x (by simp [hx]))
     simp only [List.map_cons, calcLines]
-    rw [calcLine_invert cur c rates r l hl.1 hl.2.1 hl.2.2, ih']
+    rw [calcLine_invert_breakdown cur c rates r l hl.1 hl.2, ih']
     cases calcLine exactOps cur c rates r l with
     | error e => simp [Except.map]
     | ok l' =>
@@ -635,7 +636,7 @@ theorem finish_neg (d : Doc) (p : Pre) (tx : TaxTotal) (hr : d.rounding = none) 
       simp only [Function.comp, calcAdvance_neg, exact_rescale]
       simp [invertAdvance, rescaleX_neg]
 
-/-- **Whole-document inversion.** For a document of plain lines (no breakdown, nothing stored) and no
+/-- **Whole-document inversion.** For a document of input lines (nothing calculated stored on them; breakdowns allowed) and no
 externally supplied rounding, recalculating the inverted document gives exactly the negated result:
 every line, discount, charge, advance, tax-summary group and total changes sign and nothing else
 changes.  Payment due dates are excluded from the comparison: a due date with a fixed amount keeps
